@@ -413,6 +413,8 @@ fn cons<A: Api>(suffix: &str, args: &[Val]) -> Val {
     }
     let (mut bad, par) = A::cons(a, b_);
     cross_types(suffix, a, b_, &mut bad);
+    crate::surface::surface(suffix, a, &mut bad);
+    crate::surface::surface(suffix, b_, &mut bad);
     c("cons", vec![Val::L(bad), par])
 }
 
